@@ -259,3 +259,26 @@ def op_trees_of_shape(shape, offset=0, binops=ALL_BINARY, unops=UN, leaves=SIMPL
     lrotor.i = offset
     for lab in _label(shape, binops, unops, None, None):
         yield _fill(lab, rotor, lrotor)
+
+
+def op_towers(depths=(5, 8), leaves=SIMPLE_LEAVES, listleaves=LIST_LEAVES):
+    """pumped cycles of the operator grammar: every ordered pair of operators (14 binary + 2 unary) alternated `depth` times on
+    the left spine and on the right spine (a unary operator simply wraps); leaves rotate"""
+    rotor, lrotor = LeafRotor(leaves), LeafRotor(listleaves)
+    ops = list(ALL_BINARY) + list(UN)
+    for a in ops:
+        for b in ops:
+            for depth in depths:
+                for spine in ("left", "right"):
+                    t = rotor.next()
+                    for lvl in range(depth):
+                        op = a if lvl % 2 == 0 else b
+                        if op in UN:
+                            t = unop(op, t)
+                        elif op == "In":
+                            t = binop("In", t, lrotor.next())
+                        elif spine == "left":
+                            t = binop(op, t, rotor.next())
+                        else:
+                            t = binop(op, rotor.next(), t)
+                    yield t
